@@ -8,7 +8,7 @@
    What is proved here is the library-helper half of C20 ("helper routines never write beyond the
    space they reserved") for all argument values.  The statement about all 24 executables on all
    byte streams is NOT a theorem: it is observed by sanitizer runs (sampling), see checks/C20.py. *)
-From PP Require Import ToStr.ToStringDefs ToStr.ToStringProofs.
+From PP Require Import ToStr.ToStringDefs ToStr.ToStringProofs ToStr.ToStringDigits ToStr.ToStringValue ToStr.ToStringHex.
 Local Open Scope Z_scope.
 
 (* full statement of the property, kept visible; only the part below it is proved *)
@@ -47,6 +47,64 @@ Theorem C20_ptr_bool_fit : (forall p, fits kBytes_ptr (fmt_ptr p)) /\ (forall b,
 Proof. split; [exact fmt_ptr_fits_proof|exact fmt_bool_fits_proof]. Qed.
 Print Assumptions C20_ptr_bool_fit.
 
+(* (a'') "never uses garbage": the text handed back is EXACTLY the decimal numeral, for every value of
+   the 32- and 64-bit types ([dec]: independent specification by repeated division by 10; the proof
+   goes through the regenerated digit table, the reciprocal-multiplication constants of
+   Convert8DigitsSSE2 and the leading-zero skipping of the 16-byte vector path) *)
+Theorem C20_u32_digits : forall v, 0 <= v < 4294967296 -> f_out (fmt_u32 v) = dec v.
+Proof. exact fmt_u32_digits_proof. Qed.
+Print Assumptions C20_u32_digits.
+
+Theorem C20_u64_digits : forall v, 0 <= v < 18446744073709551616 -> f_out (fmt_u64 v) = dec v.
+Proof. exact fmt_u64_digits_proof. Qed.
+Print Assumptions C20_u64_digits.
+
+Theorem C20_i32_i64_digits :
+  (forall v, -2147483648 <= v < 2147483648 -> f_out (fmt_i32 v) = dec_signed v) /\
+  (forall v, -9223372036854775808 <= v < 9223372036854775808 -> f_out (fmt_i64 v) = dec_signed v).
+Proof. split; [exact fmt_i32_digits_proof|exact fmt_i64_digits_proof]. Qed.
+Print Assumptions C20_i32_i64_digits.
+
+Theorem C20_16bit_digits :
+  (forall v, 0 <= v < 65536 -> f_out (fmt_u16 v) = dec v) /\
+  (forall v, -32768 <= v < 32768 -> f_out (fmt_i16 v) = dec_signed v).
+Proof. exact fmt_16_digits_proof. Qed.
+Print Assumptions C20_16bit_digits.
+
+(* pointers: text = "0x" + hexadecimal numeral (no leading zeros, "0x0" for null), for every 64-bit value:
+   the nibbles obtained by shifting and masking are the base-16 digits; leading zero nibbles are dropped *)
+Theorem C20_ptr_digits : forall p, 0 <= p < 18446744073709551616 -> f_out (fmt_ptr p) = 48 :: 120 :: hexnum p.
+Proof. exact fmt_ptr_digits_proof. Qed.
+Print Assumptions C20_ptr_digits.
+
+(* (d) termination of the only counted loop in the layout code: the 5 slots of the exponent buffer are enough
+   and its text is the numeral, for every exponent the source admits (ASSERT(exponent < 1e4)) *)
+Theorem C20_exponent_digits : forall e, 1 <= e < 10000 -> exp_loop 5 e [] = dec e.
+Proof. exact exp_loop_digits_proof. Qed.
+Print Assumptions C20_exponent_digits.
+
+(* (a3) the text laid out for a double DENOTES the digits it was given: an independent reader of decimal /
+   exponential notation ([read_number]: sign, integer part, '.', fraction, 'e', signed exponent) maps the text of
+   ToShortest back to  (sign, m, e)  with  m * 10^e = digits * 10^(decimal_point - number of digits)
+   -- for every sign, every digit string of 1..17 digits and every decimal point position of a finite double,
+   in all four layouts (0.000ddd, ddd000, dd.ddd, d.ddde-xx).  Together with the digit theorems no layout path emits
+   garbage; that the digits denote the double is the digit generator's job (environment). *)
+Theorem C20_double_text_denotes_digits :
+  forall sign digits dp, digits_ok kBase10MaximalLength digits = true -> -323 <= dp <= 309 ->
+  denotes (to_shortest_chars (DFinite sign digits dp)) sign digits dp.
+Proof. intros sign digits dp. exact (to_shortest_denotes_proof kBase10MaximalLength sign digits dp). Qed.
+Print Assumptions C20_double_text_denotes_digits.
+
+(* ... and for floats (ToShortestSingle lays out with the same code) *)
+Theorem C20_float_text_denotes_digits :
+  forall sign digits dp, dvalue_ok_float (DFinite sign digits dp) = true ->
+  denotes (to_shortest_chars (DFinite sign digits dp)) sign digits dp.
+Proof.
+  intros sign digits dp H. simpl in H. apply andb_true_iff in H. destruct H as [H H2]. apply andb_true_iff in H. destruct H as [H0 H1].
+  apply (to_shortest_denotes_proof 9 sign digits dp H0). split; [apply Z.leb_le in H1|apply Z.leb_le in H2]; lia.
+Qed.
+Print Assumptions C20_double_text_denotes_digits.
+
 (* (a') double / float: whatever the digit generator delivers within its documented range
         (<= 17 resp. 9 digits, decimal point position of a finite double / float), the text plus
         StringBuilder's terminator fits the reservation *)
@@ -58,6 +116,12 @@ Theorem C20_float_fits : forall d, dvalue_ok_float d = true -> fits kBytes_float
 Proof. exact fmt_float_fits_proof. Qed.
 Print Assumptions C20_float_fits.
 
+(* the tight bounds: 26 bytes for a double, 23 for a float (both attained, see the Examples) *)
+Theorem C20_double_float_tight :
+  (forall d, dvalue_ok_double d = true -> fits 26 (fmt_double d)) /\ (forall d, dvalue_ok_float d = true -> fits 23 (fmt_double d)).
+Proof. split; [exact fmt_double_tight|exact fmt_float_tight]. Qed.
+Print Assumptions C20_double_float_tight.
+
 (* (b) the in-place protocol: for every sequence of stream operations whose numbers respect their
        reservation (a), with reservations <= kmax <= capacity: no store outside the buffer, the
        cursor never passes end_, and the bytes handed to the writer followed by the buffer are
@@ -68,6 +132,25 @@ Theorem C20_stream_cursor_safe :
   exists b w, s_run cap buf ops = Some (b, w) /\ zlen b <= cap /\ concat w ++ b = buf ++ flat_map sop_bytes ops.
 Proof. exact stream_safe_proof. Qed.
 Print Assumptions C20_stream_cursor_safe.
+
+(* (b') the same for ThreadedBufferedStream (shard's outputs), producer side: additionally every block
+        handed to the writer thread, including the final one from the destructor, is non-empty
+        (an empty block is the poison that stops the writer, so none may be handed over early)
+        and at most one block long; nothing is lost or reordered *)
+Theorem C20_threaded_stream_safe :
+  forall cap kmax ops, 1 <= kmax <= cap -> Forall (sop_ok kmax) ops ->
+  forall buf, zlen buf <= cap ->
+  exists b w, t_run cap buf ops = TOk b w /\ zlen b <= cap /\ concat w ++ b = buf ++ flat_map sop_bytes ops /\
+              Forall (block_ok cap) (w ++ t_destroy b) /\ concat (w ++ t_destroy b) = buf ++ flat_map sop_bytes ops.
+Proof. exact t_stream_safe_proof. Qed.
+Print Assumptions C20_threaded_stream_safe.
+
+(* (b'') util::StringStream (the stream behind every exception message): Ensure makes exactly the
+         reserved room; numbers respecting their reservation never store beyond it *)
+Theorem C20_string_stream_safe :
+  forall kmax ops, Forall (sop_ok kmax) ops -> forall str, ss_run str ops = Some (str ++ flat_map sop_bytes ops).
+Proof. exact ss_run_safe_proof. Qed.
+Print Assumptions C20_string_stream_safe.
 
 (* ... and the constants in the headers satisfy the premises: every reservation <= kToStringMaxBytes
    <= the buffer size of BufferedStream and the block size of ThreadedBufferedStream *)
@@ -108,6 +191,26 @@ Example C20_nonvacuous_float_23 :
 Proof. vm_compute. split; reflexivity. Qed.
 
 (* integers: the vector store of a 13-digit value touches 16 bytes; extreme values *)
+(* a write of 20000 bytes into a block holding 8000: blocks 8192, 8192, then 3616 from the destructor *)
+Example C20_nonvacuous_threaded :
+  match t_run 8192 (repeat 120 (Z.to_nat 8000)) [SWrite (repeat 121 (Z.to_nat 12000))] with
+  | TOk b w => map (@length Z) (w ++ t_destroy b) = [Z.to_nat 8192; Z.to_nat 8192; Z.to_nat 3616]
+  | _ => False
+  end.
+Proof. vm_compute. reflexivity. Qed.
+
+(* "-0.00000987" reads back as -(987 * 10^-8); "1.2e21" as 12 * 10^20; "100000000000000000000" as 1 * 10^20 with k = 20 *)
+Example C20_nonvacuous_reader :
+  read_number (to_shortest_chars (DFinite true [57; 56; 55] (-5))) = (true, (987, -8)) /\
+  read_number (to_shortest_chars (DFinite false [49; 50] 22)) = (false, (12, 20)) /\
+  read_number (to_shortest_chars (DFinite false [49] 21)) = (false, (100000000000000000000, 0)).
+Proof. vm_compute. repeat split. Qed.
+
+Example C20_nonvacuous_dec :
+  dec 0 = [48] /\ dec 1234567890123 = [49;50;51;52;53;54;55;56;57;48;49;50;51] /\
+  dec_signed (-9223372036854775808) = [45;57;50;50;51;51;55;50;48;51;54;56;53;52;55;55;53;56;48;56].
+Proof. vm_compute. repeat split. Qed.
+
 Example C20_nonvacuous_integers :
   f_foot (fmt_u64 1234567890123) = 16 /\ zlen (f_out (fmt_u64 1234567890123)) = 13 /\
   f_out (fmt_u64 18446744073709551615) = [49;56;52;52;54;55;52;52;48;55;51;55;48;57;53;53;49;54;49;53] /\
